@@ -800,7 +800,12 @@ class HashWalkEngine:
         those fit_model() stores."""
         from nanite.fit import FP_DEFAULT
         fp = live.fit_properties
-        f = curves.make_curve(cfg)
+        cfg_f = cfg
+        if cfg.get("kind") == "synthetic" and rng.random() < 0.5:
+            # the same data under another file name and enumeration
+            cfg_f = dict(cfg, path="/somewhere/else/copy of it.h5",
+                         enum=int(cfg.get("enum", 0)) + 3)
+        f = curves.make_curve(cfg_f)
         with warnings.catch_warnings():
             warnings.simplefilter("ignore")
             if "preprocessing" in fp:
